@@ -141,3 +141,100 @@ func VerifC09() {
 	}
 	verif.Reach("end")
 }
+
+// ---- states at the error node carrying the diagnostic bindings ----
+
+// how the machine fails: the first action throws or returns a non-object; or a first action succeeds
+// (binding an integer) and the second one throws
+var c09Failures = [][]string{
+	{`throw "boom";`},
+	{`return 3;`},
+	{`return {"n":3,"o":{"k":1}};`, `throw "boom";`},
+}
+
+// what a node reached from the error node asks of the diagnostic bindings
+var c09ErrorPatterns = []interface{}{
+	map[string]interface{}{"lastBindings": map[string]interface{}{}},
+	map[string]interface{}{"lastBindings": map[string]interface{}{"a": "?v"}},
+	map[string]interface{}{"lastBindings": map[string]interface{}{"?k": "?v"}},
+	map[string]interface{}{"lastBindings": map[string]interface{}{"n": 3.0}},
+	map[string]interface{}{"lastBindings": "?lb", "lastNode": "?ln"},
+	map[string]interface{}{"error": "?e", "lastNode": "start"},
+}
+
+func c09ErrorSpec() *core.Spec {
+	fail := c09Failures[verif.Choose("failure", len(c09Failures))]
+	bpat := c09ErrorPatterns[verif.Choose("errorPattern", len(c09ErrorPatterns))]
+	nodes := map[string]*core.Node{
+		// the spec's own error node waits for a message, then a node decides on the diagnostic bindings
+		"error":  {Branches: &core.Branches{Type: "message", Branches: []*core.Branch{{Target: "decide"}}}},
+		"decide": {Branches: &core.Branches{Type: "bindings", Branches: []*core.Branch{{Pattern: bpat, Target: "yes"}, {Target: "no"}}}},
+		"yes":    {},
+		"no":     {},
+	}
+	if len(fail) == 1 {
+		nodes["start"] = &core.Node{ActionSource: &core.ActionSource{Interpreter: "ecmascript", Source: fail[0]},
+			Branches: &core.Branches{Branches: []*core.Branch{{Target: "yes"}}}}
+	} else {
+		nodes["start"] = &core.Node{ActionSource: &core.ActionSource{Interpreter: "ecmascript", Source: fail[0]},
+			Branches: &core.Branches{Branches: []*core.Branch{{Target: "second"}}}}
+		nodes["second"] = &core.Node{ActionSource: &core.ActionSource{Interpreter: "ecmascript", Source: fail[1]},
+			Branches: &core.Branches{Branches: []*core.Branch{{Target: "yes"}}}}
+	}
+	return &core.Spec{Name: "c09e", Nodes: nodes}
+}
+
+// VerifC09Error: the same for a machine that failed: the state at the error node (error, lastNode,
+// lastBindings) is persisted and restored before the next message.
+func VerifC09Error() {
+	verif.MapOrderInsertion(true)
+	spec := c09ErrorSpec()
+	ctx := context.Background()
+	err := spec.Compile(ctx, core.InterpretersMap{"ecmascript": NewInterpreter()}, true)
+	verif.Assert("spec-compiles", err == nil)
+	bs0 := match.NewBindings()
+	if verif.Choose("startBindings", 2) == 1 {
+		bs0["a"] = verif.AnyJSON("a", verif.Opts{Depth: 1, Width: 1, Finite: true, NoVar: true, NoVarKeys: true, Pool: []string{"k"}, ValPool: []string{"str"}})
+	}
+	st0 := &core.State{NodeName: "start", Bs: bs0}
+	ctl := &core.Control{Limit: 8}
+	msg := map[string]interface{}{"go": true}
+
+	wa, ea := spec.Walk(ctx, st0, []interface{}{msg}, ctl, nil)
+	verif.Assert("walk-returns", ea == nil && wa != nil)
+	w1, e1 := spec.Walk(ctx, st0, nil, ctl, nil)
+	verif.Assert("walk-returns", e1 == nil && w1 != nil)
+	if wa == nil || w1 == nil {
+		return
+	}
+	mid := w1.To()
+	verif.Assert("machine-is-at-the-error-node", mid != nil && mid.NodeName == "error")
+	if mid == nil {
+		return
+	}
+	_, haveLB := mid.Bs["lastBindings"]
+	verif.Assert("error-state-carries-diagnostics", haveLB)
+	restored, ok := rtState(mid)
+	verif.Assert("reachable-state-is-serialisable", ok)
+	if !ok {
+		return
+	}
+	wb, eb := spec.Walk(ctx, restored, []interface{}{msg}, ctl, nil)
+	verif.Assert("walk-returns", eb == nil && wb != nil)
+	if wb == nil {
+		return
+	}
+	enda, endb := wa.To(), wb.To()
+	if enda == nil || endb == nil {
+		verif.Assert("both-runs-move", enda == nil && endb == nil)
+		return
+	}
+	verif.Assert("same-node-after-restore", enda.NodeName == endb.NodeName)
+	ra, oka := rtState(enda)
+	rb, okb := rtState(endb)
+	verif.Assert("final-states-serialisable", oka && okb)
+	if oka && okb {
+		verif.Assert("same-bindings-after-restore", verif.JSONEqual(map[string]interface{}(ra.Bs), map[string]interface{}(rb.Bs)))
+	}
+	verif.Reach("end-error")
+}
